@@ -158,7 +158,7 @@ fn gen_medium(rng: &mut Rng) -> Medium {
             5..=7 => Framing::KeyedLenPrefixed,
             _ => Framing::Positional,
         },
-        key_form: [KeyForm::Str, KeyForm::Borrowed, KeyForm::String][rng.usize_below(3)],
+        key_form: [KeyForm::Str, KeyForm::Borrowed, KeyForm::String, KeyForm::Str, KeyForm::Borrowed, KeyForm::String, KeyForm::Bytes, KeyForm::BorrowedBytes][rng.usize_below(8)],
         nums: if rng.chance(1, 2) { NumDelivery::Typed } else { NumDelivery::Widened },
         newtype: if rng.chance(1, 2) { NewtypeMode::Transparent } else { NewtypeMode::Wrapped },
         human_readable: rng.chance(1, 2),
@@ -172,7 +172,37 @@ fn random_perm(rng: &mut Rng, n: usize) -> Vec<u8> {
     p
 }
 
+/// Keys one small edit away from a real field name of the record: the ones a sloppy comparison
+/// (prefix, case-insensitive, trimmed, NUL-terminated) would take for the field.
+pub fn near_miss_keys(field: &str) -> Vec<String> {
+    let mut v = vec![
+        format!("{}\0", field),
+        format!("\0{}", field),
+        format!("{} ", field),
+        format!(" {}", field),
+        field.to_uppercase(),
+        format!("{}s", field),
+        format!("{}{}", field, field),
+    ];
+    if field.len() > 1 {
+        v.push(field[..field.len() - 1].to_string());
+        v.push(field[1..].to_string());
+        let mut c: Vec<char> = field.chars().collect();
+        c[0] = c[0].to_ascii_uppercase();
+        v.push(c.into_iter().collect());
+    }
+    v
+}
+
 fn pick_unknown_key(rng: &mut Rng, keys: &[String]) -> String {
+    if !keys.is_empty() && rng.chance(1, 2) {
+        let f = &keys[rng.usize_below(keys.len())];
+        let nm = near_miss_keys(f);
+        let k = &nm[rng.usize_below(nm.len())];
+        if !keys.iter().any(|x| x == k) {
+            return k.clone();
+        }
+    }
     for _ in 0..8 {
         let k = UNKNOWN_KEYS[rng.usize_below(UNKNOWN_KEYS.len())];
         if !keys.iter().any(|x| x == k) {
@@ -235,7 +265,7 @@ pub fn random_plan(reg: &[TypeEntry], seed: u64, run: u64) -> Plan {
     let style = [LeafStyle::SmallDistinct, LeafStyle::RandomBits, LeafStyle::Specials, LeafStyle::Mixed][rng.usize_below(4)];
     let gen = gen_leaves(&mut rng, &e.gen_kinds, style);
     let probe = &e.probes[probe_index(&medium)];
-    let mut plan = Plan { ty: e.name.clone(), gen, patch: None, medium, wfaults: vec![], rfaults: vec![], retry: false };
+    let mut plan = Plan { ty: e.name.clone(), gen, patch: None, medium, wfaults: vec![], rfaults: vec![], retry: false, in_place: false };
 
     // swarm: which fault classes this run may use at all
     let mode = rng.below(100);
@@ -285,6 +315,7 @@ pub fn random_plan(reg: &[TypeEntry], seed: u64, run: u64) -> Plan {
         }
         plan.retry = rng.chance(1, 4);
     }
+    plan.in_place = rng.chance(1, 6);
     plan
 }
 
@@ -323,7 +354,7 @@ pub fn sweep_plans(reg: &[TypeEntry]) -> Vec<Plan> {
                     human_readable: fi != 1,
                     size_hint: [SizeHint::None, SizeHint::Exact, SizeHint::Lower][fi],
                 };
-                let base = Plan { ty: e.name.clone(), gen: gen.clone(), patch: None, medium, wfaults: vec![], rfaults: vec![], retry: false };
+                let base = Plan { ty: e.name.clone(), gen: gen.clone(), patch: None, medium, wfaults: vec![], rfaults: vec![], retry: false, in_place: false };
                 let p = &e.probes[probe_index(&medium)];
                 // fault-free
                 out.push(base.clone());
@@ -352,9 +383,9 @@ pub fn sweep_plans(reg: &[TypeEntry]) -> Vec<Plan> {
         // clause (c): every arrangement of every subset of the three fields, with and without an
         // unknown entry at every position, through every key form, on both keyed framings
         for framing in [Framing::KeyedSelfDelim, Framing::KeyedLenPrefixed] {
-            for (ki, key_form) in [KeyForm::Str, KeyForm::Borrowed, KeyForm::String].into_iter().enumerate() {
-                let medium = Medium { framing, key_form, size_hint: [SizeHint::Lower, SizeHint::None, SizeHint::Exact][ki], ..Medium::DEFAULT };
-                let base = Plan { ty: e.name.clone(), gen: gen.clone(), patch: None, medium, wfaults: vec![], rfaults: vec![], retry: false };
+            for (ki, key_form) in [KeyForm::Str, KeyForm::Borrowed, KeyForm::String, KeyForm::Bytes, KeyForm::BorrowedBytes].into_iter().enumerate() {
+                let medium = Medium { framing, key_form, size_hint: [SizeHint::Lower, SizeHint::None, SizeHint::Exact][ki % 3], ..Medium::DEFAULT };
+                let base = Plan { ty: e.name.clone(), gen: gen.clone(), patch: None, medium, wfaults: vec![], rfaults: vec![], retry: false, in_place: false };
                 let p = &e.probes[probe_index(&medium)];
                 let n = p.records.first().map(|r| r.1.len()).unwrap_or(0);
                 if n == 0 || n > 4 {
@@ -372,13 +403,32 @@ pub fn sweep_plans(reg: &[TypeEntry]) -> Vec<Plan> {
                     }
                     let mut q = base.clone();
                     q.rfaults = faults.clone();
+                    out.push(q.clone());
+                    // the same delivery into reused storage
+                    q.in_place = true;
                     out.push(q);
+                    let keys = &p.records[0].1;
                     for pos in 0..=arr.len() as u8 {
                         for (key, val) in [("rotation", UVal::CopyOf(1)), ("Scale", UVal::Num), ("", UVal::Unit), ("w", UVal::Rec)] {
                             let mut q = base.clone();
                             q.rfaults = faults.clone();
                             q.rfaults.push(RFault::Unknown { path: vec![], pos, key: key.to_string(), val });
+                            q.in_place = pos == 1;
                             out.push(q);
+                        }
+                        // near misses of each real field name, carrying that field's own payload
+                        if framing == Framing::KeyedSelfDelim && (pos == 0 || pos as usize == arr.len()) {
+                            for (fi, f) in keys.iter().enumerate() {
+                                for key in near_miss_keys(f) {
+                                    if keys.iter().any(|k| *k == key) {
+                                        continue;
+                                    }
+                                    let mut q = base.clone();
+                                    q.rfaults = faults.clone();
+                                    q.rfaults.push(RFault::Unknown { path: vec![], pos, key, val: UVal::CopyOf(fi as u8) });
+                                    out.push(q);
+                                }
+                            }
                         }
                     }
                 }
@@ -426,6 +476,11 @@ pub fn shrink_candidates(p: &Plan, reg: &[TypeEntry]) -> Vec<Plan> {
     if p.retry {
         let mut q = p.clone();
         q.retry = false;
+        out.push(q);
+    }
+    if p.in_place {
+        let mut q = p.clone();
+        q.in_place = false;
         out.push(q);
     }
     if p.patch.is_some() {
@@ -576,7 +631,7 @@ pub fn random_jplan(reg: &[TypeEntry], seed: u64, run: u64) -> JPlan {
     let gen = gen_leaves(&mut rng, &e.gen_kinds, style);
     let mut p = JPlan::base(&e.name, gen);
     p.pretty = rng.chance(1, 4);
-    p.reader = [JReader::Reader, JReader::Buffered, JReader::Slice, JReader::Str][rng.usize_below(4)];
+    p.reader = [JReader::Reader, JReader::Buffered, JReader::Slice, JReader::Str, JReader::Value][rng.usize_below(5)];
     // benign disk behaviour, drawn independently of the fault mode (swarm)
     if rng.chance(1, 3) {
         p.w_chunk = 1 + rng.below(7) as u16;
@@ -647,6 +702,7 @@ pub fn random_jplan(reg: &[TypeEntry], seed: u64, run: u64) -> JPlan {
             p.rfaults.push(RFault::Reorder { path: vec![], perm: random_perm(&mut rng, probe.records.first().map(|r| r.1.len()).unwrap_or(0)) });
         }
     }
+    p.in_place = p.reader != JReader::Value && rng.chance(1, 6);
     p
 }
 
@@ -656,7 +712,7 @@ pub fn sweep_jplans(reg: &[TypeEntry]) -> Vec<JPlan> {
         let gen = simple_gen(&e.gen_kinds);
         let base = JPlan::base(&e.name, gen.clone());
         // fault-free, every reader, compact and pretty, with and without benign disk behaviour
-        for reader in [JReader::Reader, JReader::Slice, JReader::Str, JReader::Buffered] {
+        for reader in [JReader::Reader, JReader::Slice, JReader::Str, JReader::Buffered, JReader::Value] {
             for pretty in [false, true] {
                 let mut q = base.clone();
                 q.reader = reader;
@@ -699,7 +755,7 @@ pub fn sweep_jplans(reg: &[TypeEntry]) -> Vec<JPlan> {
         if n == 0 || n > 4 {
             continue;
         }
-        for (ri, reader) in [JReader::Reader, JReader::Slice, JReader::Str].iter().enumerate() {
+        for (ri, reader) in [JReader::Reader, JReader::Slice, JReader::Str, JReader::Value].iter().enumerate() {
             for arr in arrangements(n) {
                 let dropped: Vec<u8> = (0..n as u8).filter(|i| !arr.contains(i)).collect();
                 let mut perm = arr.clone();
@@ -712,8 +768,26 @@ pub fn sweep_jplans(reg: &[TypeEntry]) -> Vec<JPlan> {
                 q.reader = *reader;
                 q.rfaults = faults.clone();
                 q.escape_keys = ri == 1;
-                q.ws = ri as u8;
+                q.ws = (ri % 3) as u8;
                 out.push(q.clone());
+                if *reader != JReader::Value {
+                    let mut qi = q.clone();
+                    qi.in_place = true;
+                    out.push(qi);
+                }
+                if ri == 0 {
+                    let keys = &p.records[0].1;
+                    for (fi, f) in keys.iter().enumerate() {
+                        for key in near_miss_keys(f) {
+                            if keys.iter().any(|k| *k == key) {
+                                continue;
+                            }
+                            let mut q2 = q.clone();
+                            q2.rfaults.push(RFault::Unknown { path: vec![], pos: arr.len() as u8, key, val: UVal::CopyOf(fi as u8) });
+                            out.push(q2);
+                        }
+                    }
+                }
                 for pos in 0..=arr.len() as u8 {
                     for (key, val) in [("rotation", UVal::CopyOf(1)), ("Scale", UVal::Num), ("", UVal::Unit)] {
                         let mut q2 = q.clone();
@@ -758,6 +832,7 @@ pub fn shrink_candidates_j(cur: &JPlan, reg: &[TypeEntry]) -> Vec<JPlan> {
         };
     }
     reset!(retry, false);
+    reset!(in_place, false);
     reset!(patch, None);
     reset!(w_err, None);
     reset!(trunc_at, None);
